@@ -967,7 +967,7 @@ func (c *Ctx) sessionSetupRefusesNothing() {
 						// the result slot of a function with a defer: every value stored into it
 						okAll := true
 						for _, r := range *al.Referrers() {
-							if st, isSt := r.(*ssa.Store); isSt && st.Addr == ssa.Value(al) && !judge(st.Val, d+1) {
+							if st, isSt := r.(*ssa.Store); isSt && st.Addr == ssa.Value(al) && !judge(st.Val, d+1) && !underNilCheckOfMessageParam(st.Block(), st.Parent()) {
 								okAll = false
 							}
 						}
@@ -1014,6 +1014,11 @@ func (c *Ctx) sessionSetupRefusesNothing() {
 			if len(ret.Results) == 0 {
 				continue
 			}
+			// a return under `msg == nil` (an argument check): the accept function hands over the CONNECT it decoded
+			underNilCheck := underNilCheckOfMessageParam(ret.Block(), fn)
+			if underNilCheck {
+				continue
+			}
 			if !judge(ir.ReturnOperand(ret, len(ret.Results)-1), 0) {
 				bad = append(bad, c.P.InstrPos(ret))
 			}
@@ -1024,6 +1029,26 @@ func (c *Ctx) sessionSetupRefusesNothing() {
 			"Session."+name+" can return an error that does not come from its own initialisation state ("+joinStr(bad, ", ")+"): it runs after the CONNECT was authenticated and the session store changed, so a CONNECT it turns away gets no CONNACK at all while the store keeps the change (an existing session of that client id is already replaced or rewritten)")
 	}
 	c.R.Floor("session set-up functions (Init, Update)", n, 2)
+}
+
+// underNilCheckOfMessageParam: block b of fn runs only when a message parameter of fn is nil (`if msg == nil { ... }`).
+func underNilCheckOfMessageParam(b *ssa.BasicBlock, fn *ssa.Function) bool {
+	for ; b != nil && b.Idom() != nil; b = b.Idom() {
+		id := b.Idom()
+		iff, ok := id.Instrs[len(id.Instrs)-1].(*ssa.If)
+		if !ok || !nilTestOfMessageParam(iff, fn) {
+			continue
+		}
+		bo := iff.Cond.(*ssa.BinOp)
+		nilSucc := id.Succs[0]
+		if bo.Op == token.NEQ {
+			nilSucc = id.Succs[1]
+		}
+		if nilSucc == b || (len(nilSucc.Preds) == 1 && nilSucc.Dominates(b)) {
+			return true
+		}
+	}
+	return false
 }
 
 const ruleG9 = "G9-no-shared-backing"
